@@ -2,6 +2,7 @@
 import Logg.Bridge.Registry
 import Logg.Gen.Decisions
 import Logg.Model.Logfmt
+import Logg.Model.JsonRead
 import Logg.Lemmas.SgrBase
 import Logg.Model.Unquote
 import Logg.Model.IsPrint
@@ -75,6 +76,15 @@ def stepQ (toks : List String) : String :=
     | some s =>
       match (logfmtTokens s).mapM splitPair with
       | some ps => "ok " ++ " ".intercalate (ps.map fun p => toHex p.1 ++ ":" ++ toHex p.2)
+      | none => "err"
+    | none => "bad-op"
+  | ["jmem", s] => match ofHex s with
+    | some s =>
+      match jsonMembers s with
+      | some ps =>
+        match ps.mapM (fun p => (jsonUnquote p.1).map fun k => (k, p.2)) with
+        | some qs => "ok " ++ " ".intercalate (qs.map fun p => toHex p.1 ++ ":" ++ toHex p.2)
+        | none => "err"
       | none => "err"
     | none => "bad-op"
   | ["junq", s] => match ofHex s with | some s => optHex (jsonUnquote s) | none => "bad-op"
